@@ -3,6 +3,7 @@ import LzmaVerif.Model.Lzip
 import LzmaVerif.Model.XzInt
 import LzmaVerif.Model.LzmaStream
 import LzmaVerif.Model.Lzma2
+import LzmaVerif.Model.Lzma2Check
 import LzmaVerif.Model.Filters
 import LzmaVerif.Model.Xz
 import LzmaVerif.Model.LzipFile
@@ -93,9 +94,14 @@ def handleLzma2Dec (a : Args) : String :=
   | some dict, some inp, some preset, some cap =>
     match Lzma2.decode dict preset.toArray inp cap with
     | .ok r =>
+      -- reenc=1: the model writer reproduces the real bytes from the recovered chunk list AND the chunk
+      -- list satisfies the hypothesis of `lzma2_roundtrip` (checkChunks ⇒ ChunksOk) and denotes the output
       let reenc :=
         if a.nat? "reenc" == some 1 then
-          (if Lzma2.reencode dict preset.toArray r.chunks == some (inp.take r.consumed) then "1" else "0")
+          (if Lzma2.reencode dict preset.toArray r.chunks == some (inp.take r.consumed) &&
+              Lzma2.checkChunks (Lzma2.propsOf r.chunks) r.chunks (Lzma2.initW dict preset.toArray (Lzma2.propsOf r.chunks))
+                == some r.out.toList
+           then "1" else "0")
         else "-"
       let extra := if a.nat? "chunks" == some 1 then " " ++ hex (r.chunks.map (·.control)) else ""
       s!"ok {r.out.size} {fnvArr r.out} {r.consumed} {reenc}{extra}"
